@@ -3,7 +3,7 @@
    NoOrder-cast streams arrive in (any two arrival oracles), outputs typed TotalOrder are equal
    sequences and the others equal multisets, tick by tick. *)
 From Coq Require Import Arith PeanoNat.
-From HV Require Import Hydro.Model Hydro.ModelTick Hydro.PBase Hydro.PTick.
+From HV Require Import Hydro.Model Hydro.ModelTick Hydro.PBase Hydro.PTick Hydro.PSort.
 
 Definition perm_oracle (sigma : list val -> list val) : Prop := forall l, Permutation (sigma l) l.
 
@@ -69,8 +69,8 @@ Proof.
     intros [a1 a2] [b1 b2] [H1 H2]. simpl in *.
     destruct (bord n1) eqn:O1; destruct (bord n2) eqn:O2; simpl in *; subst;
       try reflexivity; apply Permutation_app; auto; try reflexivity.
-  - (* BSort *) destruct W as [O W]. eapply Forall2_map2; [apply IHn; eauto|]. intros a b H.
-    rewrite O in H. simpl in H. subst. reflexivity.
+  - (* BSort *) eapply Forall2_map2; [apply IHn; eauto|]. intros a b H. simpl.
+    apply vsort_perm. eapply equiv_perm. exact H.
   - (* BEnumerate *) destruct W as [O W]. eapply Forall2_map2; [apply IHn; eauto|]. intros a b H.
     rewrite O in H. simpl in H. subst. reflexivity.
   - (* BUnique *) eapply Forall2_map2; [apply IHn; eauto|]. intros a b H.
